@@ -40,7 +40,7 @@ func dispatchHandlersAndWait(cmdName string, handlers []common.MergeCommandFunc,
 				var err error
 				results[index], err = handle(cmds[index])
 				if err != nil {
-					sLog.Infof("part of merge command error:%v, %v", string(cmds[i].Raw), err.Error())
+					sLog.Infof("part of merge command error:%v, %v", string(cmds[index].Raw), err.Error())
 					results[index] = err
 				}
 			}(i, h)
